@@ -216,3 +216,129 @@ def c11_2(I, shape):
                 "real-premaster-iff-length-and-version-ok")
     else:
         I.check(seq_eq(out, rnd), "random-premaster-for-malformed")
+
+
+# ---------------------------------------------------------------------------
+# C11.3  the server flow gives no early or distinguishable alert (live pair)
+# ---------------------------------------------------------------------------
+from models import pair as P
+from models.hello import RSA_KEY
+from obl.C05 import PAIR_RND5
+from tlslite.errors import TLSLocalAlert
+from tlslite.constants import AlertDescription, ContentType
+from symx.core import PathAbort, Unsupported
+
+
+def _patches113(shape):
+    P.ModelKEX.rnd = PAIR_RND5
+    return (P.pair_proxies(), P.pair12_stubs(PAIR_RND5) + P.prf_stubs())
+
+from tlslite.errors import TLSLocalAlert
+from tlslite.constants import AlertDescription, ContentType
+
+CLASSES = ("none", "short", "long", "bad-version", "other-premaster")
+
+
+def _shapes_c11_3(tier):
+    out = []
+    for version in ((3, 3), (3, 1)):
+        for cipher, mac in (("aes128gcm", "sha"), ("aes128", "sha")):
+            if version == (3, 1) and cipher == "aes128gcm":
+                continue
+            for cls in CLASSES:
+                out.append(dict(version=list(version), cipher=cipher,
+                                mac=mac, cls=cls))
+    return out
+
+
+class OracleKey(P.ModelKey):
+    """server key whose decrypt() result is dictated by the shape"""
+
+    def __init__(self, real, kid, cls, I):
+        P.ModelKey.__init__(self, real, kid)
+        self.cls = cls
+        self.I = I
+        self.decrypts = 0
+
+    def decrypt(self, data):
+        self.decrypts += 1
+        real = P._rsa_decrypt(self, data)
+        if self.cls == "none":
+            return None
+        if self.cls == "short":
+            return newbuf(list(self.I.bytes(47, "pm")))
+        if self.cls == "long":
+            return newbuf(list(self.I.bytes(49, "pm")))
+        if self.cls == "bad-version":
+            pm = list(self.I.bytes(48, "pm"))
+            assume(OR(pm[0] != 3, AND(pm[1] != real[1],
+                                      pm[1] != self.srv_minor)))
+            return newbuf(pm)
+        pm = list(self.I.bytes(48, "pm"))
+        assume(AND(pm[0] == real[0], pm[1] == real[1]))
+        assume(NOT(seq_eq(pm, list(real))))
+        return newbuf(pm)
+
+
+@obligation("C11.3", _shapes_c11_3,
+            functions=["tlslite.tlsconnection:TLSConnection."
+                       "_serverCertKeyExchange",
+                       "tlslite.tlsconnection:TLSConnection._serverFinished",
+                       "tlslite.tlsconnection:TLSConnection._getFinished",
+                       "tlslite.keyexchange:RSAKeyExchange."
+                       "processClientKeyExchange"],
+            assumes=P.PAIR_ASSUMES + [
+                "RSA key transport between two live endpoints; the server's "
+                "private-key operation returns, per shape: nothing (publicly "
+                "invalid ciphertext), 47 or 49 symbolic bytes, 48 symbolic "
+                "bytes with a wrong version, or 48 bytes with the right "
+                "version that are not the client's premaster secret",
+                "the TLS PRFs are random functions (as in C04.6); hash/HMAC/"
+                "PRF collision freedom; fixed randoms"],
+            patches=_patches113, max_paths=400, timeout=(600, 1800))
+def c11_3(I, shape):
+    """whatever the decryption of the ClientKeyExchange yields, the server
+    behaves the same on the wire: it sends nothing after its ServerHelloDone
+    until the client's Finished fails, and then the same fatal alert -
+    padding-invalid, wrong-length, wrong-version and merely-wrong premaster
+    secrets are indistinguishable"""
+    from symx.uf import assume_collision_free
+    version = tuple(shape["version"])
+    cset = P.settings12(version, "rsa", shape["cipher"], shape["mac"])
+    sset = P.settings12(version, "rsa", shape["cipher"], shape["mac"])
+    okey = OracleKey(RSA_KEY, "srv", shape["cls"], I)
+    okey.srv_minor = version[1]
+    sc = P.Scenario(I, PAIR_RND5, cset, sset, server_cred="rsa", skey=okey,
+                    intctxt=True)
+    sc.run()
+    assume_collision_free(["HASH_", "HMAC_", "PRF_"], ("HMAC_",), trunc=12)
+    I.check(okey.decrypts == 1, "one-private-key-operation")
+    I.check(sc.sep.crash is None and sc.cep.crash is None,
+            "no-raw-exception-from-the-handshake",
+            detail=lambda: dict(tb=sc.sep.crash or sc.cep.crash))
+    I.check(not sc.completed(sc.sep), "server-does-not-complete")
+    err = sc.sep.error
+    I.check(isinstance(err, TLSLocalAlert) and
+            err.description == AlertDescription.bad_record_mac,
+            "same-alert-for-every-class-of-bad-premaster",
+            detail=lambda: dict(error=repr(err), cls=shape["cls"]))
+    recs = P.wire_records(sc.wire)
+    srv = [(ct, len(p)) for who, ct, ver, p in recs if who == "s"]
+    cli = [ct for who, ct, ver, p in recs if who == "c"]
+    # server flight: ServerHello, Certificate, ServerHelloDone (one or more
+    # records), then exactly one alert record - nothing in between
+    alerts = [i for i, (ct, n) in enumerate(srv) if ct == ContentType.alert]
+    I.check(len(alerts) == 1 and alerts[0] == len(srv) - 1,
+            "alert-is-the-last-and-only-alert-record")
+    hs_after = [ct for ct, n in srv[:-1] if ct != ContentType.handshake]
+    I.check(hs_after == [], "nothing-but-the-hello-flight-before-the-alert")
+    # the alert comes only after the client's CCS + Finished were sent
+    order = [(who, ct) for who, ct, ver, p in recs]
+    I.check(("s", ContentType.alert) in order, "alert-on-the-wire", detail=lambda: dict(order=order, srv=srv))
+    if ("s", ContentType.alert) not in order:
+        return
+    ia = order.index(("s", ContentType.alert))
+    before = order[:ia]
+    I.check(("c", ContentType.change_cipher_spec) in before and
+            before[-1][0] == "c",
+            "alert-only-after-the-clients-finished")
